@@ -330,6 +330,32 @@ func (r *run) resolveConn(ev explore.Event) (vconn.Spec, bool) {
 		mbs = append(mbs, to.Remote)
 		sort.Strings(mbs)
 		return vconn.Spec{Kind: "MessageMailboxesUpdated", Msg: m.Remote, Mboxes: mbs, Flags: msgFlags(m)}, true
+	case "addfl", "movefl": // addfl:<from>:<sel>:<to>:<flag> — add to <to> (movefl: and remove from <from>) AND add a flag, in one update
+		from, m := pick(parts[1], parts[2])
+		to := v.Mbox(parts[3])
+		if m == nil || to == nil {
+			return vconn.Spec{}, false
+		}
+		var mbs []string
+		for _, x := range curMboxes(m.Internal) {
+			if x == to.Remote {
+				return vconn.Spec{}, false
+			}
+			if parts[0] == "movefl" && x == from.Remote {
+				continue
+			}
+			mbs = append(mbs, x)
+		}
+		mbs = append(mbs, to.Remote)
+		sort.Strings(mbs)
+		fl := msgFlags(m)
+		for _, f := range fl {
+			if strings.EqualFold(f, parts[4]) {
+				return vconn.Spec{}, false
+			}
+		}
+		fl = append(fl, parts[4])
+		return vconn.Spec{Kind: "MessageMailboxesUpdated", Msg: m.Remote, Mboxes: mbs, Flags: fl}, true
 	case "readd": // readd:<mbox> — put the most recently removed message back
 		mb := v.Mbox(parts[1])
 		if mb == nil || r.lastRemoved == "" || r.lastRemMbox != parts[1] {
